@@ -109,26 +109,18 @@ Definition safe_serialize_query_item (it : qitem) : str :=
 
 Definition safe_serialize_qsl (l : list qitem) : str := join [38] (map safe_serialize_query_item l).
 
-(* unsplit_netloc(username, password, hostname, port); hostname None -> TypeError on concat *)
+(* unsplit_netloc(username, password, hostname, port) (after its fix: commit: total) *)
 Definition truthy (o : option str) : bool := match o with Some (_ :: _) => true | _ => false end.
 Definition oget (o : option str) : str := match o with Some s => s | None => [] end.
 
-Definition unsplit_netloc (user pass host : option str) (port : option N) : res str :=
-  let auth := if truthy user && truthy pass then Some (oget user ++ [58] ++ oget pass)
-              else if truthy user then Some (oget user) else None in
-  let* h :=
-    match auth with
-    | Some a => match host with Some h => Ok (a ++ [64] ++ h) | None => Exc TypeError end
-    | None => Ok (oget host)      (* may be None; only matters when a port is appended *)
-    end in
-  match port with
-  | Some p => if p =? 0 then Ok h
-              else match auth, host with
-                   | None, None => Exc TypeError
-                   | _, _ => Ok (h ++ [58] ++ str_of_N p)
-                   end
-  | None => Ok h
-  end.
+Definition unsplit_netloc (user pass host : option str) (port : option N) : str :=
+  let nl := oget host in
+  let nl := if mem 58 nl then [91] ++ nl ++ [93] else nl in
+  let nl := match user, pass with
+            | None, None => nl
+            | _, _ => oget user ++ (match pass with Some p => [58] ++ p | None => [] end) ++ [64] ++ nl
+            end in
+  match port with Some p => nl ++ [58] ++ str_of_N p | None => nl end.
 
 (* ---- has_special_host ---- *)
 Definition is_special_host (h : str) : bool :=
